@@ -226,12 +226,59 @@ func TestC12Labels(t *testing.T) {
 	run.Extra("exhaustive_label_alphabet", "ab:/.@")
 	run.Extra("exhaustive_label_maxlen", maxLen)
 
+	// exhaustive over tokens: every sequence of up to 5 (quick) / 6 (thorough) tokens of the label
+	// grammar, including versioned project names
+	tokens := []string{"a", "//", ":", "/", "@v1", "@v0", "@v2", "@", ".", "h/p"}
+	maxTok := 5
+	if !run.Quick() {
+		maxTok = 6
+	}
+	idx := []int{}
+	j := 0
+	ev.Enumerate(run, t, "labels-tokens", func() (LabelCase, bool) {
+		for {
+			// next sequence in length-lexicographic order
+			k := len(idx) - 1
+			for k >= 0 && idx[k] == len(tokens)-1 {
+				idx[k] = 0
+				k--
+			}
+			if k < 0 {
+				idx = make([]int, len(idx)+1)
+				if len(idx) > maxTok {
+					return LabelCase{}, false
+				}
+			} else {
+				idx[k]++
+			}
+			var b strings.Builder
+			for _, x := range idx {
+				b.WriteString(tokens[x])
+			}
+			j++
+			c := withCanon(b.String())
+			if j%run.NShards == run.Shard {
+				return c, true
+			}
+		}
+	}, execLabel)
+	run.Extra("exhaustive_label_tokens", strings.Join(tokens, " "))
+	run.Extra("exhaustive_label_max_tokens", maxTok)
+
 	wide := []rune("ab:/.@-_ +*\\\x00é/:/:.")
+	frags := []string{"a", "b", "//", ":", "/", ".", "..", "@", "@v1", "@v0", "@v2", "@v10", "v1", "host/proj", "+", "-", "_", " ", "source:", "target:", "é"}
 	ev.Explore(run, t, "labels-random", run.N(30000, 150000), func(rt *rapid.T) LabelCase {
 		var s string
-		if rapid.IntRange(0, 3).Draw(rt, "mode") == 0 {
+		switch m := rapid.IntRange(0, 4).Draw(rt, "mode"); {
+		case m == 0:
 			s = rapid.String().Draw(rt, "any")
-		} else {
+		case m == 4:
+			// fragments of the label grammar, so that multi-character tokens (major-version suffixes,
+			// kinds) appear and repeat
+			for _, f := range rapid.SliceOfN(rapid.SampledFrom(frags), 1, 10).Draw(rt, "frags") {
+				s += f
+			}
+		default:
 			s = rapid.StringOfN(rapid.RuneFrom(wide), 0, 40, -1).Draw(rt, "s")
 		}
 		return withCanon(s)
